@@ -130,7 +130,8 @@ pub fn h_is_invalid_tag_size() {
     let (d0, s0, k0) = (src::usize_(), src::usize_(), src::bool_());
     let (d1, s1, k1) = (src::usize_(), src::usize_(), src::bool_());
     let (off, pos, size) = (src::usize_(), src::usize_(), src::usize_());
-    src::assume(d0 < bound && s0 < bound && d1 < bound && s1 < bound && off < bound && pos < bound && size < bound);
+    // precondition from the only call site: size = header_len + declared size, and a header has at least 2 bytes
+    src::assume(d0 < bound && s0 < bound && d1 < bound && s1 < bound && off < bound && pos < bound && size < bound && size >= 2);
     if n > 0 { it.tag_stack.push(mk_pt(if k0 { Known(s0) } else { EBMLSize::Unknown }, d0)); }
     if n > 1 { it.tag_stack.push(mk_pt(if k1 { Known(s1) } else { EBMLSize::Unknown }, d1)); }
     it.buffer_offset = Some(off);
